@@ -74,6 +74,8 @@ Failed(i) ==
     IF Log[i].k = 0 THEN C("D.Init", ToL(Log[i].st) = InitL)
     ELSE LET pre == ToL(Log[i - 1].st) post == ToL(Log[i].st) ev == Log[i].ev IN
          OpClauses(pre, ev, post)
+         \cup C("C16.NetValueIsSumOverRegisteredAssets",
+                \A y \in DOMAIN Log[i].st.net : Log[i].st.net[y] = Log[i].st.regsum[y])
          \cup C("C20.InitAtMostOnce", InitAtMostOnce(post))
          \cup C("C20.RegistrationIsForever", SubSeq(Reg(post.assets), 1, Len(pre.assets)) = Reg(pre.assets))
 
